@@ -66,6 +66,10 @@ class CheckDef:
             return 0 if ev['v'] == 1 else 1
         return 0
 
+    def release_of(self, e):
+        """is this atomic store / RMW of the model performed with release-or-stronger order in the code? (default: seq_cst)"""
+        return True
+
     def driver_prefix(self, state0):
         """driver steps preceding the workers (objects constructed under the scheduler): list of 't:a'"""
         return []
@@ -93,6 +97,8 @@ def path_to_sched(cd, g, path, hint=None):
         if e['k'] == 'ret':
             pos[t] = pos.get(t, 0) + 1
         steps.append('%d:%d' % (t, a))
+        if e['k'] in ('munlock', 'sunlock') or (e['k'] in ('ast', 'arm') and cd.release_of(e)) or (e['k'] == 'cas' and e.get('u') == 1):
+            steps.append('%d:0' % t)          # the bookkeeping step after a release-type operation (pu)
     return cd.path_header(s0) + ' | ' + ' '.join(steps), evs
 
 
@@ -201,12 +207,31 @@ def run_check(cd, tier, seed, write=True):
     # ---- 4. code -> model ------------------------------------------------------------------------
     mult = 4 if res.drift else 1
     for (label, b) in binaries:
+        pbjobs = []
         for (prog, params, n, pol) in cd.programs[tier]:
-            args = list(cd.harness_args) + ['prog=' + prog, 'pol=' + pol] + ['%s=%s' % kv for kv in params.items()]
-            files, summ = core.run_harness(b, args, n * mult, seed, tag=cd.pid + 'rnd')
+            args = list(cd.harness_args) + ['prog=' + prog] + ['%s=%s' % kv for kv in params.items()]
+            if pol.startswith('pb'):
+                # exhaustive enumeration of all schedules with at most K preemptions (n = cap); one process per program
+                pbjobs.append((prog, args + ['pb=' + pol[2:]], n * mult, pol))
+                continue
+            files, summ = core.run_harness(b, args + ['pol=' + pol], n * mult, seed, tag=cd.pid + 'rnd')
             n_exec += n * mult
             for f in files:
                 all_files.append((f, '%s %s %s' % (label, pol, prog)))
+        if pbjobs:
+            from concurrent.futures import ThreadPoolExecutor
+
+            def runpb(j):
+                prog, args, cap, pol = j
+                files, summ = core.run_harness(b, args, cap, seed, jobs=1, tag=cd.pid + 'pb')
+                return prog, pol, files, summ, cap
+            with ThreadPoolExecutor(max_workers=core.NCPU) as ex:
+                for prog, pol, files, summ, cap in ex.map(runpb, pbjobs):
+                    done = sum(v for k, v in summ.items() if k in ('done', 'deadlock', 'budget', 'crash', 'terminate', 'hang'))
+                    n_exec += done
+                    cov.setdefault('bounded_preemption', []).append({'prog': prog, 'bound': pol, 'schedules': done, 'exhausted': done < cap})
+                    for f in files:
+                        all_files.append((f, '%s %s %s' % (label, pol, prog)))
     log('[explore] %d executions recorded in %d trace files' % (n_exec, len(all_files)))
 
     phase('explore')
